@@ -27,6 +27,10 @@ class Unpredictable(Exception):
     pass
 
 
+class Unjudgeable(Unpredictable):
+    """no expectation *and* no fallback judgement (e.g. the exact conversion is within float rounding of a tie)"""
+
+
 # ------------------------------------------------------------------ relaxed comparison
 def rnorm(v):
     """comparable form: `==`-equal values of different Python types are identified (True/1, 2.0/2, list/tuple,
@@ -38,7 +42,7 @@ def rnorm(v):
     if isinstance(v, float):
         if math.isnan(v):
             return ("nan",)
-        if v.is_integer() and abs(v) < 2 ** 63:
+        if v.is_integer():
             return int(v)
         return ("f", V.fbits(v))
     if isinstance(v, (bytes, bytearray, memoryview)):
@@ -117,6 +121,13 @@ def _canon_simple(dop, v):
         try:
             if isinstance(v, float) and (math.isnan(v) or math.isinf(v)):
                 raise Unpredictable("non-finite through compu")
+            if isinstance(cm, D.Linear) and dop.dct.bt in ("A_INT32", "A_UINT32") and cm.num1 != 0:
+                # odxtools computes in binary64: when the exact quotient is (nearly) half-way between two internal values the
+                # rounding direction is a matter of float arithmetic, which is outside the property
+                q = (V.Fraction(v) * V.Fraction(cm.den) - V.Fraction(cm.num0)) / V.Fraction(cm.num1)
+                frac = q - (q.numerator // q.denominator)
+                if abs(frac - V.Fraction(1, 2)) <= V.Fraction(1, 10 ** 9) * max(1, abs(q)):
+                    raise Unjudgeable("rounding tie within float precision")
             x = V.to_internal(dop, v)
             if x is None:
                 raise Unpredictable("no inverse image")
@@ -153,9 +164,9 @@ def expect_dop(dop, v, siblings, sib_params, trig):
             if len(hit) == 1:
                 return DtcVal(hit[0])
             return ("\x00requested-unknown-dtc", v)
-        if isinstance(v, bool) or not isinstance(v, int):
+        if not isinstance(v, int):
             raise Unpredictable("dtc by non-int")
-        return DtcVal(v)
+        return DtcVal(int(v))
     if isinstance(dop, D.Struct):
         if not isinstance(v, dict):
             raise Unpredictable("non-dict for structure")
@@ -217,8 +228,11 @@ def expect_params(params, value, trig=None):
         elif t in ("value", "system"):
             if not given:
                 v = p.default
+                if v is None and t == "value":
+                    out[p.name] = "\x00required-parameter-missing"      # must be rejected: nothing decode returns equals this
+                    continue
                 if v is None:
-                    raise Unpredictable("required value missing")
+                    raise Unpredictable("implicit SYSTEM value")
             out[p.name] = expect_dop(p.dop, v, {**value, **out}, params, trig)
         elif t == "reserved":
             out[p.name] = 0                 # a supplied value is ignored by design (see C04 ASSUMPTIONS)
